@@ -129,14 +129,33 @@ def coq_make(targets, timeout=3000):
 
 
 def vo_fresh(rel_v):
+    """the .vo exists and is up to date with respect to ALL its dependencies (make -q)"""
     v = os.path.join(COQ, rel_v)
     vo = v[:-2] + ".vo"
-    return os.path.exists(vo) and os.path.getmtime(vo) >= os.path.getmtime(v)
+    if not (os.path.exists(vo) and os.path.getmtime(vo) >= os.path.getmtime(v)):
+        return False
+    rc, out, _ = sh(["make", "-q", rel_v[:-2] + ".vo"], cwd=COQ, timeout=300)
+    return rc == 0
 
 
-def forbidden_scan():
+def dep_closure(rel_files):
+    """transitive closure of `From LH Require ...` dependencies (relative .v paths under coq/)"""
+    seen, todo = set(), list(rel_files)
+    while todo:
+        rel = todo.pop()
+        if rel in seen or not os.path.exists(os.path.join(COQ, rel)):
+            continue
+        seen.add(rel)
+        txt = open(os.path.join(COQ, rel), errors="replace").read()
+        for m in re.finditer(r"From\s+LH\s+Require\s+(?:Import\s+|Export\s+)?(.*?)\.(?:\s|$)", txt, flags=re.S):
+            for mod in m.group(1).split():
+                todo.append(mod.replace(".", "/") + ".v")
+    return sorted(seen)
+
+
+def forbidden_scan(files=None):
     bad = []
-    for rel in coq_sources():
+    for rel in (files if files is not None else coq_sources()):
         txt = open(os.path.join(COQ, rel), errors="replace").read()
         # strip comments (non-nested approximation is enough: nested comments are also comments)
         depth, i, buf = 0, 0, []
@@ -360,9 +379,14 @@ class Runner:
                     kind = "tie" if rel.startswith("Tie/") else ("theorem" if rel.startswith("Properties/") else "model-build")
                     errs = re.findall(r'File "\./([^"]+)", line (\d+).*?\n(?:.*\n){0,6}?Error:?(.*(?:\n.*){0,3})', out)
                     self.build_problems.append((kind, rel, "\n".join("%s:%s %s" % e for e in errs)[-3000:] or out[-3000:]))
-            bad = forbidden_scan()
+            # this property's development = dependency closure of its targets; the rest of the tree is scanned too
+            # but only reported (another property's unfinished file must not fail this check)
+            mine = dep_closure([t[:-1] for t in targets])
+            bad = forbidden_scan(mine)
             if bad:
                 self.build_problems.append(("forbidden", "forbidden-token", "; ".join(bad)))
+            self.forbidden_elsewhere = [b for b in forbidden_scan() if b not in bad]
+            self.closure = mine
             if vo_fresh("Properties/%s.v" % pid):
                 self.prop_info = check_property_file(pid)
                 if not self.prop_info["compiled"]:
@@ -613,6 +637,8 @@ class Runner:
             "unclassified_outside_fragment": self.unclassified,
             "no_longer_checks": broken,
             "make_s": getattr(self, "make_s", None),
+            "coq_files_in_closure": getattr(self, "closure", []),
+            "forbidden_tokens_outside_closure": getattr(self, "forbidden_elsewhere", []),
         }
         if extra_cov:
             cov.update(extra_cov)
